@@ -449,7 +449,7 @@ def make_textpath_models():
         (rx(r"^Path::parent$"), m_parent),
         (rx(r"^Path::to_path_buf$"), m_to_path_buf),
         (rx(r"^<Path as ToOwned>::to_owned$"), m_to_path_buf),
-        (rx(r"^<PathBuf as From<(&str|String|&String|&Path)>>::from$"), m_to_path_buf),
+        (rx(r"^<PathBuf as From<(&str|String|&String|&Path|&OsStr|OsString)>>::from$"), m_to_path_buf),
         (rx(r"^<T as Into<PathBuf>>::into$"), m_to_path_buf),
         (rx(r"^<PathBuf as Clone>::clone$"), m_to_path_buf),
         (rx(r"^<PathBuf as Deref>::deref$"), m_deref),
